@@ -303,7 +303,19 @@ def handleAstdiff (id : String) (xs : List Sx) : String :=
         | none => " (snap ok)"
         | some k => s!" (snap differs {k})"
       let bad := if w.bad then " (modeltrouble 1)" else ""
-      s!"(res {id} (changed{String.join (ch.map (fun r => s!" ({r.pos} {r.stop})"))}){snap}{bad})"
+      -- the declarations not paired as identical, and the hypothesis of `untouched_neighbours_left_alone` for
+      -- every declaration that is: do the others lie, with their regions, on one side of its extent?
+      let decls := match AD.declsOf old (AD.strip new) with
+        | some (ds, regs, fts) =>
+            let tagged : List (AD.AV × AD.Fate) := ds.zip fts
+            let nonid := tagged.filterMap (fun (x : AD.AV × AD.Fate) => match x.2 with
+              | AD.Fate.same _ => none
+              | _ => some s!" ({x.1.pos} {x.1.stop})")
+            let ident := tagged.filter (fun (x : AD.AV × AD.Fate) => match x.2 with | AD.Fate.same _ => true | _ => false)
+            let fails := ident.filter (fun (x : AD.AV × AD.Fate) => let (lo, hi) := AD.extentOf x.1; !AD.sepB lo hi ds regs fts)
+            s!" (nonid{String.join nonid}) (identical {ident.length}) (sepfail {fails.length}{String.join (fails.map (fun (x : AD.AV × AD.Fate) => let (lo, hi) := AD.extentOf x.1; s!" ({lo} {hi})"))})"
+        | none => " (nodecls)"
+      s!"(res {id} (changed{String.join (ch.map (fun r => s!" ({r.pos} {r.stop})"))}){snap}{bad}{decls})"
   | _, _ => s!"(res {id} (bad-case))"
 
 def handleLine (sc : Option Schema) (line : String) : String :=
